@@ -1105,6 +1105,42 @@ def fixed_bsi_episodes(g):
                 g.emit("bstream %s %s" % (t, m))
                 g.emit("bdump %s" % t)
                 g.emit("bequals %s %s" % (t, m))
+        # an index EXACTLY 65 planes wide (it holds MinInt64, or a value of 64-bit magnitude): negative / zero / positive values stored
+        # afterwards with every setter, read back every way
+        if w == "64":
+            for widen in ("bset %s 1 -9223372036854775808", "bsetbig %s 1 9223372036854775813", "bsetbig %s 1 -18446744073709551615"):
+                q = g.fresh("fx")
+                g.emit("bnew %s 64" % q)
+                g.emit(widen % q)
+                g.emit("bbits %s" % q)
+                for c, v in [(2, -1), (3, -5), (4, 0), (5, 7), (6, -9223372036854775807), (7, 9223372036854775807)]:
+                    g.emit("bset %s %d %d" % (q, c, v))
+                    g.emit("bgetbig %s %d" % (q, c))
+                g.emit("bsetbig %s 8 -2" % q)
+                g.emit("fs64 %s 20 21" % (q + "f"))
+                g.emit("bsetmany %s %s -3" % (q, q + "f"))
+                g.emit("bdump %s" % q)
+                g.emit("bgetsbig %s 2 3 4 5 6 7 8 20 21" % q)
+                c2 = g.fresh("fx")
+                g.emit("bclone %s %s" % (c2, q))
+                g.emit("bdump %s" % c2)
+                t = g.fresh("ft")
+                g.emit("bstream %s %s" % (t, q))
+                g.emit("bdump %s" % t)
+        # marshal round trips of NON-NEGATIVE maps in which some binary digit below the highest one is set in no value (empty planes in
+        # the middle): {1,4,5}, all even, multiples of 1024, one digit emptied by overwrites
+        if w == "64":
+            for vals in ([1, 4, 5], [2, 4, 6, 128], [1024, 5120, 7168], [0, 16, 17], [9, 9, 1], [4611686018427387904, 1]):
+                q = g.fresh("fx")
+                g.emit("bnew %s 64" % q)
+                for i, v in enumerate(vals):
+                    g.emit("bset %s %d %d" % (q, 10 + i, v))
+                for how in ("bmarsh", "bstream"):
+                    t = g.fresh("ft")
+                    g.emit("%s %s %s" % (how, t, q))
+                    g.emit("bdump %s" % t)
+                    g.emit("bequals %s %s" % (t, q))
+                    g.emit("bget %s 10" % t)
         # batch reads with REPEATED column ids — of a column holding 0, a negative value, a wide value, and of absent columns
         if w == "64":
             q = g.fresh("fx")
